@@ -1111,9 +1111,18 @@ impl World {
             let hwm = st.dbid_high_water_mark;
             let mut invs: Vec<String> = st.invoices.iter().map(|(h, p)| format!("{}:{}:{}:{}", hex::encode(h.0), hex::encode(p.invoice_hash), p.amount_msat, p.is_fulfilled)).collect();
             invs.sort();
+            let now = self.now();
+            let vel = |c: &lightning_signer::util::velocity::VelocityControl| {
+                let mut c = c.clone();
+                if now >= c.start_sec {
+                    c.insert(now, 0);
+                }
+                json!({"state": c.get_state(), "limit": c.limit, "bucket_interval": c.bucket_interval})
+            };
+            let vels = json!([vel(&st.velocity_control), vel(&st.fee_velocity_control)]);
             drop(st);
             let allow: Vec<String> = self.node.allowlist().unwrap_or_default();
-            json!({"entry": v, "payments": payments, "excess_amount": excess, "allowlist": allow, "direct": {"dbid_high_water_mark": hwm, "invoices": invs}})
+            json!({"entry": v, "payments": payments, "excess_amount": excess, "allowlist": allow, "direct": {"dbid_high_water_mark": hwm, "invoices": invs, "velocity": vels}})
         };
         let tracker = {
             let t = self.node.get_tracker();
@@ -1149,7 +1158,8 @@ impl World {
             let st = self.node.get_state();
             let entry: NodeStateEntry = (&*st).into();
             let v = serde_json::to_value(&entry).unwrap();
-            json!([v["velocity_control"], v["fee_velocity_control"]])
+            let raw = |c: &lightning_signer::util::velocity::VelocityControl| json!({"state": c.get_state(), "limit": c.limit, "bucket_interval": c.bucket_interval});
+            json!([v["velocity_control"], v["fee_velocity_control"], raw(&st.velocity_control), raw(&st.fee_velocity_control)])
         };
         let mut stored = vec![];
         for (k, (_ver, v)) in dump_persister(&self.persister).iter() {
